@@ -20,7 +20,7 @@ type Atom struct {
 	// NilEq: the atom stands for (Phi == nil) of a pointer/interface-valued phi (an error travelling through the
 	// result variable of an inlined helper); its value is assigned on the phi's incoming edges like a boolean phi's
 	NilEq *ssa.Const
-	Ev   bool        // synthetic event variable
+	Ev    bool // synthetic event variable
 	// structure, for rule-side classification
 	Kind string    // "eq" (X == Y), "lt" (X < Y), "len0" (len(X)==0), "mapok" (X map, Y key), "isa", "val" (X), "phi", "ev"
 	X, Y ssa.Value // operands as SSA values of the function the atom was created in
@@ -51,7 +51,7 @@ type Analysis struct {
 	// blocks reachable from the entry once conditions on bound parameters are folded (nil: not computed)
 	feasible   map[*ssa.BasicBlock]bool
 	inFeasible bool
-	res    func(ssa.Value) ssa.Value // nil at top level
+	res        func(ssa.Value) ssa.Value // nil at top level
 	// PhiFilter, if set, restricts which boolean phis may be auto-tracked as derived flags.
 	PhiFilter func(*ssa.Phi) bool
 	// ConstBind specialises string parameters to constants (e.g. elementName := "img").
